@@ -114,7 +114,7 @@ func runC18(c *Ctx) {
 				}
 				c.check(allocOK, "R2", "data page allocator in "+fnName(site.Parent()), pos(site), "the packet manager's allocator", "the data slice is not taken from the packet manager's allocator")
 			}
-			c.check(n >= 3, "R2", "getDataSlice sites", "?", fmt.Sprintf("%d sites", n), fmt.Sprintf("only %d getDataSlice call sites (3 expected)", n))
+			c.check(n >= 2, "R2", "getDataSlice sites", "?", fmt.Sprintf("%d sites", n), fmt.Sprintf("only %d getDataSlice call sites (one per server expected)", n))
 			// inside getDataSlice the page is requested under that order id
 			for _, gp := range callsWhere(gds, func(cc *ssa.CallCommon) bool { return calleeName(cc) == "GetPage" }) {
 				a := argsOf(callOf(gp))[0]
